@@ -84,6 +84,10 @@ type Session struct {
 	View   *netsim.View
 
 	Offered map[chainhash.Hash]*chaingen.Node // every header hash ever sent to the client
+	// Removed: hashes that were stored once and were then taken off the stored
+	// chain (most recent last, bounded); by-hash lookups of these must fail
+	// until they are stored again.
+	Removed []chainhash.Hash
 	Bans    []Ban
 	banMu   sync.Mutex
 	Steps   []string // human-readable script (the replay witness)
